@@ -64,6 +64,47 @@ def build_groups(ctx: Ctx):
         bind = rng.choice(rt.BINDS)
         cases = [(p, "GET", rt.NOQ) for p in paths] + [(p, rng.choice(["GET", "HEAD"]), rng.choice(rt.QUERIES[1:])) for p in paths[:6]]
         groups.append((rt.make_cfg(rules, strict, merge, True, bind), False, cases))
+    # (e) adapter creation as a dimension: Map.bind_to_environ(environ[, server_name[, subdomain]]) with SCRIPT_NAME /
+    #     PATH_INFO / QUERY_STRING / HTTP_HOST as a WSGI server gives them; non-ASCII / spaced / percent script roots
+    envb = rt.ENV_BINDS if not q else rng.sample(rt.ENV_BINDS, 7)
+    for bind in envb:
+        for _ in range(2 if q else 14):
+            kind = rng.random()
+            if kind < 0.35:
+                rules = rt.c12_rules(rng, rng.randint(2, 5))
+                paths = rt.c12_paths(rules, rng, 14 if q else 30)
+            elif kind < 0.6:
+                tpl = rng.choice(rt.alias_groups())
+                rules = [dict(r) for r in tpl]
+                rng.shuffle(rules)
+                paths = rt.alias_group_paths(rules, rng, 14 if q else 30)
+            elif kind < 0.8:
+                rules, _s, _m, paths = rng.choice(rt.own_slash_groups(rng, True))
+            else:
+                rules = [dict(r) for r in rng.choice(rt.defaults_families())]
+                rng.shuffle(rules)
+                paths = rng.sample(rt.FAMILY_PATHS, 12)
+            if bind["scheme"] in ("ws", "wss"):
+                rules = [dict(r, methods=None) for r in rules]
+            cases = [(p, "GET", rng.choice(rt.QUERIES)) for p in paths if p]
+            groups.append((rt.make_cfg(rules, rng.random() < 0.7, rng.random() < 0.7, rng.random() < 0.9, bind), False, cases))
+    # (f) defaults families: 2-3 rules of one endpoint over the argument sets {}, {p}, {s}, {p, s} with defaults on
+    #     subsets, every declaration order; the redirect must keep endpoint AND arguments (none added, none lost)
+    fams = rt.defaults_families()
+    if q:
+        fams = rng.sample(fams, 22)
+    for fam in fams:
+        orders = list(itertools.permutations(range(len(fam))))
+        for o in (orders if not q else [rng.choice(orders)]):
+            rules = [dict(fam[i], strict=rng.choice("dddtf")) for i in o]
+            if rng.random() < 0.3:
+                rules += [dict(r, methods=None) for r in rt.random_rules(rng, 1)]
+                rng.shuffle(rules)
+            bind = rng.choice(rt.BINDS + rt.ENV_BINDS[:4])
+            if bind["scheme"] in ("ws", "wss"):
+                rules = [dict(r, methods=None) for r in rules]
+            cases = [(p, "GET", rt.NOQ) for p in rt.FAMILY_PATHS] + [(p, "GET", rng.choice(rt.QUERIES[1:])) for p in rt.FAMILY_PATHS[::3]]
+            groups.append((rt.make_cfg(rules, rng.random() < 0.7, rng.random() < 0.8, True, bind), False, cases))
     # (b) random maps with defaults / alias pairs and per-rule overrides
     for _ in range(220 if q else 2500):
         rules = rt.c12_rules(rng, rng.randint(2, 6))
